@@ -1,5 +1,5 @@
 from rtamt.syntax.ast.visitor.stl.ast_visitor import StlAstVisitor
-from rtamt.explanation.ltl.discrete_time.explainer import LTLExplainer, Explanations
+from rtamt.explanation.ltl.discrete_time.explainer import LTLExplainer, Explanations, holds
 from rtamt.explanation.stl.discrete_time.explanations import *
 from rtamt.exception.exception import RTAMTException
 
@@ -34,7 +34,7 @@ class STLExplainer(LTLExplainer, StlAstVisitor):
         intervals = args[0]
         flag = args[1]
         op_signal = self.spec.results[element.children[0]]
-        if flag:
+        if holds(flag, False):
             op_intervals = explain_sat_timed_eventually(op_signal, intervals, *self.bounds(element))
         else:
             op_intervals = explain_unsat_timed_eventually(op_signal, intervals, *self.bounds(element))
@@ -45,7 +45,7 @@ class STLExplainer(LTLExplainer, StlAstVisitor):
         intervals = args[0]
         flag = args[1]
         op_signal = self.spec.results[element.children[0]]
-        if flag:
+        if holds(flag, True):
             op_intervals = explain_sat_timed_always(op_signal, intervals, *self.bounds(element))
         else:
             op_intervals = explain_unsat_timed_always(op_signal, intervals, *self.bounds(element))
@@ -59,7 +59,7 @@ class STLExplainer(LTLExplainer, StlAstVisitor):
         intervals = args[0]
         flag = args[1]
         op_signal = self.spec.results[element.children[0]]
-        if flag:
+        if holds(flag, False):
             op_intervals = explain_sat_timed_once(op_signal, intervals, *self.bounds(element))
         else:
             op_intervals = explain_unsat_timed_once(op_signal, intervals, *self.bounds(element))
@@ -70,7 +70,7 @@ class STLExplainer(LTLExplainer, StlAstVisitor):
         intervals = args[0]
         flag = args[1]
         op_signal = self.spec.results[element.children[0]]
-        if flag:
+        if holds(flag, True):
             op_intervals = explain_sat_timed_historically(op_signal, intervals, *self.bounds(element))
         else:
             op_intervals = explain_unsat_timed_historically(op_signal, intervals, *self.bounds(element))
